@@ -25,7 +25,7 @@ EOf(dg)   == HashToScalarB(HB(dg))                         \* <<"ok", e>> / <<"e
 
 Classes == {"r_zero", "s_zero", "high_s_rej", "high_s_acc", "x_ge_n", "R_inf", "e_zero", "digest_ge_n", "digest_short",
             "digest_long", "accept", "reject", "enc_asn1", "enc_compact", "enc_rec", "enc_bogus", "rec_wrong_v", "btc_accept",
-            "btc_badenv", "btc_high_s", "hash_mismatch", "parse_reject", "alt_path", "nil_opts",
+            "btc_badenv", "btc_high_s", "hash_mismatch", "parse_reject", "cmp_shift_n", "digest_scribbled", "kept_key", "alt_path", "nil_opts",
             "d_one", "d_nm1", "pub_yodd", "pub_yeven", "digest_zero", "digest_ones", "neg_s", "noneg_s", "v0", "v1",
             "sv_same", "build_der", "build_short", "build_compact", "inadmissible_len", "inadmissible_enc", "rfc6979", "hedged", "split_key", "sign_len_long",
             "reader_short_reads", "reader_fail_0", "reader_fail_mid", "reader_fail_31", "reader_err_with_last", "reader_ok",
@@ -113,7 +113,8 @@ Verdict(ev) ==
          << KeyOK(ev.q) /\ (ev.out <=> want),
             VerifyClasses(q, eo, r, s, ev.out) \cup DigestClasses(ev.digest) \cup (IF Has(ev, "after_scribble") THEN {"after_scribble"} ELSE {})
             \cup (IF Has(ev, "after_derive") THEN {"after_derive"} ELSE {})
-            \cup (IF Has(ev, "near_miss") /\ ~want THEN {"near_miss_r"} ELSE {}) >>
+            \cup (IF Has(ev, "near_miss") /\ ~want THEN {"near_miss_r"} ELSE {})
+            \cup (IF Has(ev, "kept_key") /\ want THEN {"kept_key"} ELSE {}) >>
     [] ev.ev = "vfy.Alt" ->
          LET d == H(ev.d)  eo == EOf(ev.digest)  r == H(ev.r)  s == H(ev.s)
              want == eo[1] = "ok" /\ VerifyPred(PMulG(d), eo[2], r, s) IN
@@ -133,6 +134,10 @@ Verdict(ev) ==
                     \cup (IF SGreaterThanHalfN(p[3]) /\ ev.out THEN {"high_s_acc"} ELSE {})
                     \cup (IF eff = "recoverable" /\ ~ev.out /\ Len(dg) >= W /\ VerifyPred(q, HashToScalarB(dg)[2], p[2], p[3])
                           THEN {"rec_wrong_v"} ELSE {}))
+            \cup (IF eff \in {"compact", "recoverable"} /\ p[1] = "err" /\ Len(sig) >= 2 * W /\ Len(dg) >= W /\ ~ev.out
+                     /\ LET r0 == OS2IP(SubSeq(sig, 1, W))  s0 == OS2IP(SubSeq(sig, W + 1, 2 * W)) IN
+                        ((N \preceq r0) # (N \preceq s0)) /\ VerifyPred(q, HashToScalarB(dg)[2], r0 %% N, s0 %% N)
+                  THEN {"cmp_shift_n"} ELSE {})                       \* valid once reduced, rejected as written: one half carries value + n
             \cup DigestClasses(ev.digest) >>
     [] ev.ev = "vfy.Btc" ->
          LET q == PtOfEnc(ev.q)  dg == HB(ev.digest)  sig == HB(ev.sig)
@@ -267,7 +272,11 @@ StatefulVerdict(ev) ==
        (* entropy request not satisfied: no signature; the reader protocol must still be ReadFull's *)
        << wk[1] /\ wk[3] /\ ~ev.ok,
           (IF wk[2] = 0 THEN {"reader_fail_0"} ELSE IF wk[2] = 31 THEN {"reader_fail_31"} ELSE {"reader_fail_mid"}), seenKey, seenR >>
-  ELSE LET d == H(ev.d)  e == eo[2]  r == H(ev.r)  s == H(ev.s)  key == Key3(ev, e)
+  ELSE LET d == H(ev.d)  r == H(ev.r)  s == H(ev.s)
+           (* a reader that rewrote the digest buffer during the call: the library may have signed either content; the triple is the signed one's *)
+           ea == IF Has(ev, "digest_alt") THEN EOf(ev.digest_alt) ELSE eo
+           e == IF Has(ev, "digest_alt") /\ ev.ok /\ ea[1] = "ok" /\ ~SigFullyOK(d, eo[2], r, s, ev.v) /\ SigFullyOK(d, ea[2], r, s, ev.v) THEN ea[2] ELSE eo[2]
+           key == Key3(ev, e)
            known == key \in DOMAIN seenKey
            fresh == ev.r \notin DOMAIN seenR
        IN
@@ -280,7 +289,7 @@ StatefulVerdict(ev) ==
           \cup (IF \E i \in 1..Len(ev.reads) : ev.reads[i][3] THEN {"reader_err_with_last"} ELSE {})
           \cup (IF known THEN {"same_triple"} ELSE {})
           \cup (IF Has(ev, "nil_rand") THEN {"nil_rand"} ELSE {}) \cup (IF Has(ev, "wiped_import") THEN {"wiped_import"} ELSE {})
-          \cup (IF Has(ev, "split_key") THEN {"split_key"} ELSE {})
+          \cup (IF Has(ev, "split_key") THEN {"split_key"} ELSE {}) \cup (IF Has(ev, "digest_alt") THEN {"digest_scribbled"} ELSE {})
           \cup (IF ~known /\ \E k \in DOMAIN seenKey : k[1] = key[1] /\ k[2] = key[2] THEN {"entropy_one_byte_diff"} ELSE {})
           \cup (IF ~known /\ \E k \in DOMAIN seenKey : k[3] = key[3] /\ (k[1] # key[1] \/ k[2] # key[2]) THEN {"constant_entropy_diff_msg"} ELSE {}),
           IF known THEN seenKey ELSE [k \in DOMAIN seenKey \cup {key} |-> IF k = key THEN <<ev.r, ev.s>> ELSE seenKey[k]],
